@@ -67,7 +67,7 @@ def quiescent_ok(snap: dict[str, Any]) -> str | None:
             return "workflow %s but stage(s) %s RUNNING" % (wf, running)
         top = {k: v for k, v in st.items() if not k.startswith("syn:")}
         if wf == "SUCCEEDED":
-            bad = [k for k, v in top.items() if v not in CONTINUABLE]
+            bad = [k for k, v in top.items() if v not in CONTINUABLE and v != "STOPPED"]  # failPipeline=false: a STOPPED stage does not fail the workflow (by design, O3)
             if bad:
                 return "workflow SUCCEEDED but stage(s) %s = %s" % (bad, [top[b] for b in bad])
         if "TERMINAL" in top.values() and wf == "SUCCEEDED":
